@@ -101,6 +101,11 @@ static optval stub_pop(struct ramq* self);
 static _Bool is_nptr(word_t w);
 static unsigned nidx(word_t w);
 #define XV_POP(self) stub_pop(self)
+/* a node owned by a local std::unique_ptr<node> (lowering rule raii_nodes): release() hands the pointer out and empties the owner;
+ * the owner's destructor deletes the node (running the real ~node) unless it is empty */
+static marked_ptr up_release_fn(marked_ptr* x) { marked_ptr p = *x; *x = 0; return p; }
+#define XV_UP_RELEASE(x) up_release_fn(&(x))
+#define XV_UP_DTOR(x) do { if ((x) != 0) { XV_DELETE_NODE(x); (x) = 0; } } while (0)
 #define N_pop_idx(g) (a_pop_idx[node_idx(g)])
 #define N_push_idx(g) (a_push_idx[node_idx(g)])
 #define N_next(g) (a_next[node_idx(g)])
